@@ -16,20 +16,29 @@ GROUPS = {
     'G5': (['C17', 'C18', 'C19', 'C20'], 'falcon/asgi/ws.py, falcon/asgi/app.py (websocket parts), falcon/middleware.py, falcon/app.py '
            '(construction / first-request paths), falcon/routing/compiled.py (locking / lazy compilation)'),
 }
-g = sys.argv[1]
-pids, files = GROUPS[g]
-texts = '\n'.join(subprocess.check_output(['/verif/tools/prop_text.py', p]).decode() for p in pids)
-print('''You are a maintainer of the Python web framework falconry/falcon. You work ONLY inside your own scratch git worktree of the repository: /tmp/benign-%(g)s (a checkout of the current HEAD, pure-Python sources). Never read or write anything under /verif, never touch /repo, never use git commands that affect other worktrees (no `git worktree`, no `git checkout` of branches, no `git stash`; `git diff`, `git apply`, `git apply -R` and `git checkout -- <file>` inside your worktree are fine).
-
-Here are semantic properties that falcon satisfies today and must KEEP satisfying:
-
-%(texts)s
-Your task: produce FOUR different, realistic, CORRECT changes to the falcon source — the kind of pull request a maintainer would merge — in or around these files: %(files)s. Each change (5-40 changed lines) must leave EVERY property above intact for every input, configuration, history and schedule the property quantifies over, and must import and pass the repository's existing test-suite: run `cd /tmp/benign-%(g)s && PYTHONPATH=/tmp/benign-%(g)s /venv/bin/python -m pytest tests -q -p no:cacheprovider -n 8 --timeout=900 --continue-on-collection-errors 2>&1 | tail -5` (baseline on the unchanged worktree: 3440 passed plus 16 pre-existing collection errors in tests/test_uri_templates.py and one expected failure tests/test_cython.py::TestCythonized::test_imported_from_c_modules because compiled modules are absent). Do not edit the tests.
-
-The four changes must be of these kinds, one each:
+KINDS = {'1': '''The four changes must be of these kinds, one each:
   change 1: a pure REFACTORING of code the properties depend on — restructure control flow, extract or inline a helper, rename private attributes / local variables / private methods, replace a loop by a comprehension or vice versa — with identical observable behaviour;
   change 2: a correct PERFORMANCE OPTIMISATION of code the properties depend on — a fast path, a cache, avoiding a copy, precomputing a table — whose result is identical to the general path for every input (be careful: it really must be identical);
   change 3: a change of behaviour the properties deliberately leave OPEN — e.g. the wording of an error title / description / exception message, the text of a log or warning, a repr, the order of response headers where order carries no meaning, the exact value chosen where the property allows several — while everything the properties do pin down stays the same;
   change 4: a small backwards-compatible FEATURE ADDITION touching the same code — a new optional argument, option or method whose default keeps today's behaviour exactly.
 
-For each change, re-read the property statements and convince yourself that none of them can tell the difference (if you are not sure, pick a different change). Deliverables, in the directory /tmp/benign-%(g)s/_out/ (create it): for change k in {1,2,3,4}: `change<k>.diff` (output of `git diff` for that change alone, relative to the worktree root) and `meta<k>.json` with keys: "group": "%(g)s", "kind" (refactor / optimisation / open-behaviour / feature), "summary" (one sentence), "why_preserving" (one or two sentences: why no listed property can observe it), "tests_run" (the exact command and its last line of output with the change applied). Leave the worktree's tracked files UNCHANGED at the end (git checkout -- falcon) so that only _out/ holds your results. Final message: a short summary of the four changes.''' % {'g': g, 'texts': texts, 'files': files})
+''', '2': '''The four changes must sit AS CLOSE TO THE BOUNDARY of what the properties pin down as possible WITHOUT crossing it, one of each kind:
+  change 1: STRICTER input handling where a property explicitly allows either outcome (e.g. "either returns a lenient reading or raises a 400-class error", "malformed ... stay literal" is pinned but "invalid input is rejected cleanly" is open): turn one lenient reading of INVALID input into the documented error, without touching any valid input;
+  change 2: MORE LENIENT handling of input that is invalid or outside a property's domain (tolerate surrounding white space, accept an additional spelling, accept an additional argument type), with every valid input and every pinned-down result unchanged;
+  change 3: a change of INTERNAL DATA STRUCTURE or of caching that is really correct for every history and schedule: e.g. replace a list by a tuple or a dict by two lists, cache the result of a PURE function whose result is immutable, build a table lazily but under a lock, re-use an immutable constant object - think hard about aliasing, mutation by callers, cache invalidation and thread-safety, and only deliver it if it is truly unobservable;
+  change 4: a change of something observable that the properties do NOT mention at all: the ORDER of response headers or of dict keys where no property fixes it, additional (not fewer) log / debug output, an extra informational attribute or header that no property forbids, a different but valid choice where a property says several are acceptable.
+
+'''}
+g = sys.argv[1]
+rnd = sys.argv[2] if len(sys.argv) > 2 else '1'
+wt = 'benign-' if rnd == '1' else 'benign%s-' % rnd
+pids, files = GROUPS[g]
+texts = '\n'.join(subprocess.check_output(['/verif/tools/prop_text.py', p]).decode() for p in pids)
+print('''You are a maintainer of the Python web framework falconry/falcon. You work ONLY inside your own scratch git worktree of the repository: /tmp/%(wt)s%(g)s (a checkout of the current HEAD, pure-Python sources). Never read or write anything under /verif, never touch /repo, never use `pkill` / `killall` or any pattern-based kill, never use git commands that affect other worktrees (no `git worktree`, no `git checkout` of branches, no `git stash`; `git diff`, `git apply`, `git apply -R` and `git checkout -- <file>` inside your worktree are fine).
+
+Here are semantic properties that falcon satisfies today and must KEEP satisfying:
+
+%(texts)s
+Your task: produce FOUR different, realistic, CORRECT changes to the falcon source — the kind of pull request a maintainer would merge — in or around these files: %(files)s. Each change (5-40 changed lines) must leave EVERY property above intact for every input, configuration, history and schedule the property quantifies over, and must import and pass the repository's existing test-suite: run `cd /tmp/%(wt)s%(g)s && PYTHONPATH=/tmp/%(wt)s%(g)s /venv/bin/python -m pytest tests -q -p no:cacheprovider -n 8 --timeout=900 --continue-on-collection-errors 2>&1 | tail -5` (baseline on the unchanged worktree: 3440 passed, 491 skipped, plus 8 pre-existing collection errors in tests/test_uri_templates.py). Do not edit the tests.
+
+%(kinds)sFor each change, re-read the property statements and convince yourself that none of them can tell the difference (if you are not sure, pick a different change). Deliverables, in the directory /tmp/%(wt)s%(g)s/_out/ (create it): for change k in {1,2,3,4}: `change<k>.diff` (output of `git diff` for that change alone, relative to the worktree root) and `meta<k>.json` with keys: "group": "%(g)s", "kind" (two or three words naming the kind of change), "summary" (one sentence), "why_preserving" (one or two sentences: why no listed property can observe it), "tests_run" (the exact command and its last line of output with the change applied). Leave the worktree's tracked files UNCHANGED at the end (git checkout -- falcon) so that only _out/ holds your results. Final message: a short summary of the four changes.''' % {'g': g, 'texts': texts, 'files': files, 'wt': wt, 'kinds': KINDS[rnd]})
